@@ -33,8 +33,14 @@ ASSUMPTIONS = [
     "alter None and 0 are the same spelling; a key mode is compared only when the document declares one (kern never)",
     "measure starts: every encoded barline/measure element must start a measure; a measure at the very beginning "
     "(music before the first kern barline) and an empty one at the final kern barline are accepted, not required",
-    "kern ties are generated between single notes only (the reader documents chord ties as unsupported); MEI ties "
-    "are <tie startid endid> elements; MEI documents carry xml:id on every element (the reader requires them)",
+    "kern ties between single notes are in kern-ties; ties touching a chord token (documented as unsupported in the "
+    "reader) and files where only some spines share a *part/*I interpretation are separate sub-spaces whose "
+    "failures are proposed as known findings; MEI ties are <tie startid endid> elements; MEI documents carry "
+    "xml:id on every element (the reader requires them); MEI repeat barlines are well formed (alternating, closed)",
+    "the note-array clause compares (onset_quarter, duration_quarter, pitch) up to one common onset shift per part "
+    "(a short first bar is a pickup for the quarter map) within float32 precision; everything else is exact",
+    "the kern writer cannot express grace notes (it merges them into the token of the main note): grace notes are "
+    "only round-tripped through MEI",
     "export->load: parts have voices that are unique across staves, gap-free voices, equal-duration chords, Tuplet "
     "objects for tuplet groups and symbolic durations on every note (what the two writers can express); the "
     "comparison is per note object (onset, duration in quarters, MIDI pitch, staff), ties not merged",
@@ -110,7 +116,7 @@ def kern_doc(spine_measures, meter=(4, 4), key=(0, None), style=None, staffs=Non
     return {"meter": list(meter), "key": [key[0], None], "nm": nm, "spines": sp, "kern": style or {}}
 
 
-VALUES = [1, 2, 4, 8, 16]
+VALUES = [0, 1, 2, 4, 8, 16]  # 0 = breve
 DOTS = [0, 1, 2]
 
 
@@ -152,7 +158,7 @@ def g_rhythm(fmt, tier, seed):
     """one staff/spine, one layer, one measure: every sequence of <=2 events over the full alphabet and every
     sequence of 3 events over a reduced alphabet"""
     kinds = ["n", "c", "r"] + (["s"] if fmt == "mei" else [])
-    values = VALUES + ([0, 32] if tier == "thorough" else [])
+    values = VALUES + ([32] if tier == "thorough" else [])
     alpha = [(k, v, d) for k in kinds for v in values for d in DOTS]
     small = [(k, v, d) for k in (["n", "r", "s"] if fmt == "mei" else ["n", "r", "c"]) for v in (4, 8, 16) for d in (0, 1)]
     for n in (1, 2):
@@ -796,10 +802,6 @@ def part_spec(doc):
     return {"id": "P1", "divs": [[0, divs]], "objs": objs}, sorted(expected)
 
 
-def _strip(fill):
-    return [e for e in fill]
-
-
 def g_roundtrip(fmt, tier, seed):
     """parts the writers can express: 1-2 staves x 1-2 voices x 2 measures x fillings; rhythm sequences with dots;
     tuplet groups; ties; pitches; grace notes (MEI).  fmt selects the writer (save_mei / save_kern); the kern writer
@@ -917,7 +919,7 @@ def spaces(tier, seed):
     q = " (quick: fixed core + hash block VERIF_SEED of the rest; thorough: everything)"
     return [
         sp("mei-rhythm", g_rhythm, "1 staff, 1 layer, 1 measure; all sequences of <=2 events over {note,chord,rest,space} x "
-           "{whole..16th (thorough: breve..32nd)} x {0,1,2 dots}; triple-dotted events alone and before a quarter; all 3-event sequences over {note,rest,space} x {4,8,16} x {0,1 dots}; "
+           "{breve..16th (thorough: ..32nd)} x {0,1,2 dots}; triple-dotted events alone and before a quarter; all 3-event sequences over {note,rest,space} x {4,8,16} x {0,1 dots}; "
            "the <=2 sequences again with declared ppq/dur.ppq" + q, "mei"),
         sp("kern-rhythm", g_rhythm, "1 spine, 1 measure; all sequences of <=2 tokens over {note,chord,rest} x {whole..16th} x {0,1,2 dots}; "
            "all 3-token sequences over {note,rest,chord} x {4,8,16} x {0,1 dots}" + q, "kern"),
@@ -1017,8 +1019,9 @@ def compare_part(res, fmt, rp, op, tag):
     SP = (2, 3, 4, 5)
     a, b = _proj(rp["notes"], SP), _proj(op["notes"], SP)
     if a != b:
-        res.fail("pitch-spelling", expected=_first_diff(a, b)["expected"] if "index" in _first_diff(a, b) else _first_diff(a, b),
-                 observed=_first_diff(a, b).get("observed", "count differs"), where=where, detail=tag)
+        d = _first_diff(a, b)
+        res.fail("pitch-spelling", expected=d.get("expected", d), observed=d.get("observed", "%d elements instead of %d" % (len(b), len(a))),
+                 where=where, detail=tag + " (kind, step, alter, octave) of every note, chord member and rest")
         return False
     a, b = _proj(rp["notes"], SP + (0,)), _proj(op["notes"], SP + (0,))
     if a != b:
@@ -1294,7 +1297,6 @@ def eval_case(case):
         _call(res, "note-array", check_note_array, res, f, [parts[j] for j in obs["order"]], ref["parts"], "")
     nn = sum(len(p["notes"]) for p in obs["parts"])
     nt = sum(len(p["ties"]) for p in obs["parts"])
-    res.states = max(1, len(obs["parts"]))
     res.outcome = "%s p%d n%d t%d %s" % (f, len(obs["parts"]), nn, nt, "ok" if not res.violations else res.violations[0]["clause"])
     res.nontrivial = nn > 0
     return res
